@@ -564,8 +564,9 @@ def replay_path(uni: Universe, scn, steps, read_mode, tally, probes=None, probe_
                 if read_mode != "all" and ev["op"] == "read":
                     subset = VIEW_GROUPS[ev["v"] % len(VIEW_GROUPS)::3]
                 mm += compare_views(drv, view, tally, subset)
-        if not mm:
-            # C01: the reported net value equals wallet x prices + (supplies - debts) valued by the specification
+        if all(m.prop in ("C13", "C11") and m.clause != "view_raises" for m in mm):
+            # C01: the reported net value equals wallet x prices + (supplies - debts) valued by the specification (also when only
+            # other REPORTED values deviate: positions, wallet and outcome conform)
             tally("C01/aave_net_value")
             try:
                 nv, av, mv = drv.account()
